@@ -852,6 +852,20 @@ namespace
 		}
 	}
 
+	/// <summary>
+	/// Moves the reader to a position next to the current one (back to the start of an `ext` header after looking ahead,
+	/// or over it). When the stream refuses (it is not seekable and the position is not in the cached chunk) the load
+	/// cannot go on from the right place: that must not pass silently.
+	/// </summary>
+	void SeekOrThrow(Detail::CBinaryStreamReader& binaryStreamReader, size_t pos)
+	{
+		if (!binaryStreamReader.SetPosition(pos))
+		{
+			throw SerializationException(SerializationErrorCode::InputOutputError,
+				"The input stream does not support seeking, which is required for reading this MsgPack value");
+		}
+	}
+
 	uint32_t ReadExtSize(Detail::CBinaryStreamReader& binaryStreamReader, uint_fast8_t extSizeBytesNum)
 	{
 		if (extSizeBytesNum == 1)
@@ -1047,7 +1061,7 @@ namespace
 					if (extTypeInfo.ExtTypeCode == '\xFF') {
 						extTypeInfo.ValueType = ValueType::Timestamp;
 					}
-					binaryStreamReader.SetPosition(prevPos);
+					SeekOrThrow(binaryStreamReader, prevPos);
 					return true;
 				}
 				throw ParsingException("Unexpected end of input archive", 0, binaryStreamReader.GetPosition());
@@ -1065,7 +1079,7 @@ namespace
 					if (extTypeInfo.ExtTypeCode == '\xFF') {
 						extTypeInfo.ValueType = ValueType::Timestamp;
 					}
-					binaryStreamReader.SetPosition(prevPos);
+					SeekOrThrow(binaryStreamReader, prevPos);
 					return true;
 				}
 				throw ParsingException("Unexpected end of input archive", 0, binaryStreamReader.GetPosition());
@@ -1285,7 +1299,7 @@ namespace BitSerializer::MsgPack::Detail
 		ExtTypeInfo extTypeInfo;
 		if (ReadExtFamilyType(mBinaryStreamReader, extTypeInfo) && extTypeInfo.ExtTypeCode == '\xFF')
 		{
-			mBinaryStreamReader.SetPosition(mBinaryStreamReader.GetPosition() + extTypeInfo.DataOffset);
+			SeekOrThrow(mBinaryStreamReader, mBinaryStreamReader.GetPosition() + extTypeInfo.DataOffset);
 			if (extTypeInfo.Size == 4)
 			{
 				uint32_t data32;
